@@ -7,6 +7,7 @@ package verifyield
 
 import (
 	"runtime"
+	"sync"
 	"sync/atomic"
 )
 
@@ -37,8 +38,59 @@ func cur() Scheduler {
 // P is a scheduling point.
 func P(site string) {
 	if s := cur(); s != nil {
+		if regions.Load() > 0 && inRegion() {
+			return
+		}
 		s.Yield(site, false)
 	}
+}
+
+// Atomic regions: a closure handed to xsync's Compute family runs under the map's bucket lock, a real
+// mutex the scheduler cannot see. Code called from such a closure must not be descheduled (the next
+// task to touch that bucket would block for real), exactly as the closure itself is one atomic step of
+// the map in reality. The instrumenter puts "defer vy.Atomic()()" at the top of those closures.
+var (
+	regions  atomic.Int64
+	regionMu sync.Mutex
+	regionOf = map[uint64]int{}
+)
+
+func Atomic() func() {
+	if cur() == nil {
+		return func() {}
+	}
+	g := goid()
+	regionMu.Lock()
+	regionOf[g]++
+	regionMu.Unlock()
+	regions.Add(1)
+	return func() {
+		regions.Add(-1)
+		regionMu.Lock()
+		if regionOf[g]--; regionOf[g] <= 0 {
+			delete(regionOf, g)
+		}
+		regionMu.Unlock()
+	}
+}
+
+func inRegion() bool {
+	g := goid()
+	regionMu.Lock()
+	n := regionOf[g]
+	regionMu.Unlock()
+	return n > 0
+}
+
+func goid() uint64 {
+	var buf [64]byte
+	b := buf[:runtime.Stack(buf[:], false)]
+	// "goroutine 123 ["
+	var id uint64
+	for i := len("goroutine "); i < len(b) && b[i] >= '0' && b[i] <= '9'; i++ {
+		id = id*10 + uint64(b[i]-'0')
+	}
+	return id
 }
 
 // Go starts f as a scheduler task (or a plain goroutine without a scheduler).
@@ -54,7 +106,7 @@ func Go(f func()) {
 // by a parked task.
 func Lock(try func() bool) {
 	for !try() {
-		if s := cur(); s != nil {
+		if s := cur(); s != nil && !(regions.Load() > 0 && inRegion()) {
 			s.Yield("lock-wait", true)
 		} else {
 			runtime.Gosched()
